@@ -1,3 +1,4 @@
 import Props.C03
 import Props.C06
 import Props.C15
+import Props.C19
